@@ -71,7 +71,14 @@ pub fn gen_spec(rng: &mut Rng, with_overrides: bool) -> (CmdSpec, BTreeMap<Strin
         }
         if rng.chance(1, 6) {
             for r in pick_some(rng, &ids, &me, 1) {
-                a.requires_ifs.push((if rng.coin() { Some("v1".into()) } else { None }, r));
+                a.requires_ifs.push((if rng.coin() { Some("v1".into()) } else { None }, r.clone()));
+                // the same target may be named again: by another value, or unconditionally
+                if rng.coin() {
+                    a.requires_ifs.push((Some((*rng.pick(&["v2", "v3"])).to_string()), r.clone()));
+                }
+                if rng.chance(1, 4) {
+                    a.requires.push(r);
+                }
             }
         }
         if with_overrides && rng.chance(1, 5) {
